@@ -153,6 +153,18 @@ class Describer:
         if lo is not None:
             return ("k", lo)
         ro = self.ev.range_operands(rop)
+        if ro is None:
+            # `s[a..]`: a RangeFrom aggregate (one field)
+            l = operand_local(rop)
+            for _ in range(4):
+                d = self.b.single_def(l) if l is not None else None
+                if d and d[2] == "A" and d[3][2][0] == "use" and d[3][2][1][0] in ("cp", "mv") and len(d[3][2][1][1]) == 1:
+                    l = d[3][2][1][1][0]
+                else:
+                    break
+            d = self.b.single_def(l) if l is not None else None
+            if d and d[2] == "A" and d[3][2][0] == "agg" and d[3][2][1].get("path", "").endswith("ops::RangeFrom") and d[3][2][2]:
+                ro = ("from", d[3][2][2][0], None)
         if ro is None or ro[1] is None:
             return None
         D = self.value_of(ro[1])
